@@ -289,10 +289,10 @@ Proof.
 Qed.
 
 Lemma wrb_step b k l v :
-  k < Z.of_nat (length b) -> pfx b k l ->
+  pfx b k l -> k < Z.of_nat (length b) ->
   exists b', wrb b k v = JOk b' /\ length b' = length b /\ pfx b' (k + 1) (l ++ [v]).
 Proof.
-  intros Hk (Hlen & Hp). unfold wrb. replace ((0 <=? k) && (k <? Z.of_nat (length b))) with true by lia.
+  intros (Hlen & Hp) Hk. unfold wrb. replace ((0 <=? k) && (k <? Z.of_nat (length b))) with true by lia.
   eexists. split; [reflexivity|]. split; [apply upd_length|]. split.
   - rewrite app_length. cbn [length]. lia.
   - replace (Z.to_nat k) with (length l) by lia. apply firstn_upd_ext; [exact Hp|lia].
@@ -318,10 +318,10 @@ Proof.
 Qed.
 
 Lemma fillb_step b k l n v :
-  0 <= n -> k + n <= Z.of_nat (length b) -> pfx b k l ->
+  pfx b k l -> 0 <= n -> k + n <= Z.of_nat (length b) ->
   exists b', fillb b k n v = JOk b' /\ length b' = length b /\ pfx b' (k + n) (l ++ repeat v (Z.to_nat n)).
 Proof.
-  intros Hn Hle (Hlen & Hp). unfold fillb. destruct (n =? 0) eqn:Hn0.
+  intros (Hlen & Hp) Hn Hle. unfold fillb. destruct (n =? 0) eqn:Hn0.
   - exists b. split; [reflexivity|]. split; [reflexivity|].
     replace (Z.to_nat n) with 0%nat by lia. cbn [repeat]. rewrite app_nil_r. split; [lia|exact Hp].
   - replace ((0 <=? k) && (k + n <=? Z.of_nat (length b))) with true by lia.
@@ -354,7 +354,7 @@ Lemma maybe_minus_step b minus :
 Proof.
   intros Hm Hl Hp. unfold maybe_minus. destruct Hm as [-> | ->]; cbn [Z.eqb Pos.eqb].
   - exists b. split; [reflexivity|]. split; [reflexivity|exact Hp].
-  - destruct (wrb_step b 0 [] 45%N) as (b' & He & Hlen & Hp'); [lia|exact Hp|].
+  - destruct (wrb_step b 0 [] 45%N Hp) as (b' & He & Hlen & Hp'); [lia|].
     rewrite He. cbn [jbind]. exists b'. split; [reflexivity|]. split; [exact Hlen|exact Hp'].
 Qed.
 
@@ -388,11 +388,11 @@ Proof.
         [lia|lia|unfold cm, cins in *; lia|exact Hp|].
       exists b', d'. split; [exact He|]. split; [unfold cm, cins in *; lia|]. split; [exact Hl|exact Hp'].
     + rewrite rdin_ok by lia. cbn [jbind]. destruct (d =? dp) eqn:Hdp.
-      * destruct (wrb_step b (base + d) l 46%N) as (b1 & He1 & Hl1 & Hp1);
-          [unfold cm, cins in *; lia|exact Hp|].
+      * destruct (wrb_step b (base + d) l 46%N Hp) as (b1 & He1 & Hl1 & Hp1);
+          [unfold cm, cins in *; lia|].
         rewrite He1. cbn [jbind].
-        destruct (wrb_step b1 (base + d + 1) (l ++ [46%N]) (bat s (num + n))) as (b2 & He2 & Hl2 & Hp2);
-          [unfold cm, cins in *; lia|exact Hp1|].
+        destruct (wrb_step b1 (base + d + 1) (l ++ [46%N]) (bat s (num + n)) Hp1) as (b2 & He2 & Hl2 & Hp2);
+          [unfold cm, cins in *; lia|].
         rewrite He2. cbn [jbind].
         destruct (IH s num dec_idx dp b2 ((l ++ [46%N]) ++ [bat s (num + n)]) base (n + 1) (d + 2))
           as (b' & d' & He & Hd' & Hl & Hp');
@@ -400,8 +400,8 @@ Proof.
            replace (base + (d + 2)) with (base + d + 1 + 1) by lia; exact Hp2|].
         exists b', d'. split; [exact He|]. split; [unfold cm, cins in *; lia|]. split; [congruence|].
         rewrite <- !app_assoc in Hp'. exact Hp'.
-      * destruct (wrb_step b (base + d) l (bat s (num + n))) as (b1 & He1 & Hl1 & Hp1);
-          [unfold cm, cins in *; lia|exact Hp|].
+      * destruct (wrb_step b (base + d) l (bat s (num + n)) Hp) as (b1 & He1 & Hl1 & Hp1);
+          [unfold cm, cins in *; lia|].
         rewrite He1. cbn [jbind].
         destruct (IH s num dec_idx dp b1 (l ++ [bat s (num + n)]) base (n + 1) (d + 1))
           as (b' & d' & He & Hd' & Hl & Hp');
@@ -417,16 +417,16 @@ Definition decidx (dec_point : option Z) (num : Z) : Z :=
 (* lyjson_exp_number_copy_num_part: [m] source bytes are stored, [ins] is 1 when the new decimal point
    is inserted; neither assert fires, the stores are the cells base .. base + m + ins - 1 *)
 Lemma copy_num_part_step s num num_len dec_point dp b l base m ins :
-  0 <= num -> 0 <= num_len <= 65535 -> num + num_len <= Ln s + 1 ->
+  pfx b base l -> 0 <= num -> 0 <= num_len <= 65535 -> num + num_len <= Ln s + 1 ->
   (forall p, dec_point = Some p -> 0 <= p - num < 65536) ->
   decidx dec_point num <> dp ->
   m = cm 0 num_len (decidx dec_point num) -> ins = cins 0 dp m ->
-  base + m + ins <= Z.of_nat (length b) -> pfx b base l ->
+  base + m + ins <= Z.of_nat (length b) ->
   exists b', copy_num_part s num num_len dec_point dp b base = JOk (b', m + ins) /\
     length b' = length b /\
     pfx b' (base + (m + ins)) (l ++ copy_list (Z.to_nat num_len) s num (decidx dec_point num) dp 0 0).
 Proof.
-  intros Hnum Hlen Hrd Hdec Hne Hm Hins Hb1 Hp. unfold copy_num_part.
+  intros Hp Hnum Hlen Hrd Hdec Hne Hm Hins Hb1. unfold copy_num_part.
   replace (match dec_point with Some p => i32 (p - num) | None => INT32_MAX end) with (decidx dec_point num).
   2:{ unfold decidx. destruct dec_point as [p|]; [|reflexivity].
       specialize (Hdec p eq_refl). rewrite i32_id by lia. reflexivity. }
@@ -843,3 +843,804 @@ Qed.
 
 Lemma sgz_mul minus x k : sgz minus x * k = sgz minus (x * k).
 Proof. unfold sgz. destruct (minus =? 1); ring. Qed.
+
+(* ---------- the bytes the copy loop stores, as a list expression over the text ---------- *)
+Definition ins_at (j : Z) (l : bytes) : bytes :=
+  if (0 <=? j) && (j <? Ln l) then firstn (Z.to_nat j) l ++ 46%N :: skipn (Z.to_nat j) l else l.
+
+(* the source bytes without the old decimal point *)
+Fixpoint srcl (cnt : nat) (s : bytes) (num di n : Z) : bytes :=
+  match cnt with
+  | O => []
+  | S c => if n =? di then srcl c s num di (n + 1) else bat s (num + n) :: srcl c s num di (n + 1)
+  end.
+
+Lemma ins_at_out j l : j < 0 \/ Ln l <= j -> ins_at j l = l.
+Proof. intro H. unfold ins_at. replace ((0 <=? j) && (j <? Ln l)) with false by lia. reflexivity. Qed.
+
+Lemma ins_at_0 c l : ins_at 0 (c :: l) = 46%N :: c :: l.
+Proof. unfold ins_at. cbn [length]. replace ((0 <=? 0) && (0 <? Z.of_nat (S (length l)))) with true by lia. reflexivity. Qed.
+
+Lemma ins_at_cons j c l : j <> 0 -> ins_at j (c :: l) = c :: ins_at (j - 1) l.
+Proof.
+  intro Hj. unfold ins_at. cbn [length].
+  destruct ((0 <=? j) && (j <? Z.of_nat (S (length l)))) eqn:Hc.
+  - replace ((0 <=? j - 1) && (j - 1 <? Ln l)) with true by lia.
+    replace (Z.to_nat j) with (S (Z.to_nat (j - 1))) by lia. reflexivity.
+  - replace ((0 <=? j - 1) && (j - 1 <? Ln l)) with false by lia. reflexivity.
+Qed.
+
+Lemma copy_list_eq cnt : forall s num di dp n d,
+  copy_list cnt s num di dp n d = ins_at (dp - d) (srcl cnt s num di n).
+Proof.
+  induction cnt as [|cnt IH]; intros s num di dp n d; cbn [copy_list srcl].
+  - rewrite ins_at_out by (cbn [length]; lia). reflexivity.
+  - destruct (n =? di) eqn:Hn; [apply IH|]. destruct (d =? dp) eqn:Hd.
+    + rewrite IH. rewrite ins_at_out by lia. replace (dp - d) with 0 by lia. rewrite ins_at_0. reflexivity.
+    + rewrite IH. rewrite ins_at_cons by lia. replace (dp - (d + 1)) with (dp - d - 1) by lia. reflexivity.
+Qed.
+
+Lemma srcl_none cnt : forall s num di n,
+  ~ (n <= di < n + Z.of_nat cnt) -> 0 <= num + n -> num + n + Z.of_nat cnt <= Ln s ->
+  srcl cnt s num di n = sub s (num + n) (num + n + Z.of_nat cnt).
+Proof.
+  induction cnt as [|cnt IH]; intros s num di n Hd H0 H1; cbn [srcl].
+  - rewrite sub_nil by lia. reflexivity.
+  - replace (n =? di) with false by lia. rewrite (sub_cons s (num + n)) by lia.
+    rewrite IH by lia. f_equal. f_equal; lia.
+Qed.
+
+Lemma srcl_some cnt : forall s num di n,
+  n <= di < n + Z.of_nat cnt -> 0 <= num + n -> num + n + Z.of_nat cnt <= Ln s ->
+  srcl cnt s num di n = sub s (num + n) (num + di) ++ sub s (num + di + 1) (num + n + Z.of_nat cnt).
+Proof.
+  induction cnt as [|cnt IH]; intros s num di n Hd H0 H1; cbn [srcl]; [lia|].
+  destruct (n =? di) eqn:Hn.
+  - rewrite srcl_none by lia. rewrite (sub_nil s (num + n) (num + di)) by lia. cbn [app]. f_equal; lia.
+  - rewrite (sub_cons s (num + n) (num + di)) by lia. rewrite IH by lia. cbn [app]. f_equal. f_equal; f_equal; lia.
+Qed.
+
+(* ---------- the texts of the five layouts denote (m, e) ---------- *)
+Definition den (minus m e : Z) (out : bytes) : Prop :=
+  exists v, dec_denote out = Some v /\ same_value (sgz minus m, e) v = true.
+
+Lemma Forall_firstn_isd n (l : bytes) : Forall isd l -> Forall isd (firstn n l).
+Proof.
+  intro H. rewrite <- (firstn_skipn n l) in H. apply Forall_app in H. destruct H as [H _]. exact H.
+Qed.
+Lemma Forall_skipn_isd n (l : bytes) : Forall isd l -> Forall isd (skipn n l).
+Proof.
+  intro H. rewrite <- (firstn_skipn n l) in H. apply Forall_app in H. destruct H as [_ H]. exact H.
+Qed.
+
+Lemma length_zero_nil (l : bytes) : l <> [] <-> 0 < Ln l.
+Proof. destruct l; cbn [length]; split; intro H; try lia; try congruence. Qed.
+
+Lemma Forall_repeat48 n : Forall isd (repeat 48%N n).
+Proof. induction n as [|n IH]; cbn [repeat]; constructor; [reflexivity|exact IH]. Qed.
+
+(* 0.000ddd *)
+Lemma den_l1 minus Gs z :
+  minus = 0 \/ minus = 1 -> Gs <> [] -> Forall isd Gs ->
+  den minus (dval Gs 0) (- Z.of_nat z - Ln Gs) (sgnl minus ++ [48%N] ++ 46%N :: repeat 48%N z ++ Gs).
+Proof.
+  intros Hm Hne HG. unfold den.
+  rewrite (dec_denote_frac minus [48%N] (repeat 48%N z ++ Gs) Hm).
+  - eexists. split; [reflexivity|].
+    change ([48%N] ++ repeat 48%N z ++ Gs) with (repeat 48%N (S z) ++ Gs). rewrite dval_zeros_l.
+    rewrite app_length, repeat_length.
+    replace (- (Z.of_nat (z + length Gs))) with (- Z.of_nat z - Ln Gs) by lia. apply same_value_refl.
+  - discriminate.
+  - destruct (repeat 48%N z); [exact Hne|discriminate].
+  - constructor; [reflexivity|constructor].
+  - apply Forall_app. split; [apply Forall_repeat48|exact HG].
+Qed.
+
+(* ddd.ddd, or ddd when the point would come last *)
+Lemma den_ins minus Gs j :
+  minus = 0 \/ minus = 1 -> 0 < j <= Ln Gs -> Forall isd Gs ->
+  den minus (dval Gs 0) (j - Ln Gs) (sgnl minus ++ ins_at j Gs).
+Proof.
+  intros Hm Hj HG. unfold den. destruct (Z.eq_dec j (Ln Gs)) as [He|Hne].
+  - rewrite ins_at_out by lia. rewrite (dec_denote_int minus Gs Hm); [|apply length_zero_nil; lia|exact HG].
+    eexists. split; [reflexivity|]. replace (j - Ln Gs) with 0 by lia. apply same_value_refl.
+  - unfold ins_at. replace ((0 <=? j) && (j <? Ln Gs)) with true by lia.
+    assert (Hf : Ln (firstn (Z.to_nat j) Gs) = j) by (rewrite firstn_length; lia).
+    assert (Hs : Ln (skipn (Z.to_nat j) Gs) = Ln Gs - j) by (rewrite skipn_length; lia).
+    rewrite (dec_denote_frac minus _ _ Hm).
+    + eexists. split; [reflexivity|]. rewrite firstn_skipn, Hs.
+      replace (- (Ln Gs - j)) with (j - Ln Gs) by lia. apply same_value_refl.
+    + apply length_zero_nil. lia.
+    + apply length_zero_nil. lia.
+    + apply Forall_firstn_isd. exact HG.
+    + apply Forall_skipn_isd. exact HG.
+Qed.
+
+(* ddd000 *)
+Lemma den_fill minus Gs j :
+  minus = 0 \/ minus = 1 -> 0 < j -> Ln Gs <= j -> Forall isd Gs ->
+  den minus (dval Gs 0) (j - Ln Gs) (sgnl minus ++ Gs ++ repeat 48%N (Z.to_nat (j - Ln Gs))).
+Proof.
+  intros Hm Hj Hle HG. unfold den. rewrite (dec_denote_int minus _ Hm).
+  - eexists. split; [reflexivity|]. rewrite dval_app, dval_repeat0. rewrite Z2Nat.id by lia.
+    apply (sv_iff _ _ _ _ 0); [lia|lia|]. rewrite sgz_mul.
+    replace (j - Ln Gs - 0) with (j - Ln Gs) by lia. change (10 ^ (0 - 0)) with 1. lia.
+  - apply length_zero_nil. rewrite app_length, repeat_length. lia.
+  - apply Forall_app. split; [exact HG|apply Forall_repeat48].
+Qed.
+
+(* leading zeros that were dropped do not change the value *)
+Lemma den_zeros minus z T e out :
+  den minus (dval T 0) e out -> den minus (dval (repeat 48%N z ++ T) 0) e out.
+Proof. rewrite dval_zeros_l. auto. Qed.
+
+(* trailing zeros that were stripped are accounted for by the exponent *)
+Lemma den_strip minus Gs c e out :
+  den minus (dval Gs 0) e out -> den minus (dval (Gs ++ repeat 48%N c) 0) (e - Z.of_nat c) out.
+Proof.
+  intros (v & Hv & Hs). exists v. split; [exact Hv|].
+  apply (same_value_trans _ (sgz minus (dval Gs 0), e)); [|exact Hs].
+  apply (sv_iff _ _ _ _ (e - Z.of_nat c)); [lia|lia|].
+  rewrite dval_app, dval_repeat0.
+  replace (e - Z.of_nat c - (e - Z.of_nat c)) with 0 by lia.
+  replace (e - (e - Z.of_nat c)) with (Z.of_nat c) by lia. change (10 ^ 0) with 1.
+  rewrite !sgz_mul. f_equal. ring.
+Qed.
+
+(* ================= F. lyjson_exp_number ================= *)
+(* the five layouts, cut out of exp_number word for word (exp_number_eq is by reflexivity) *)
+Definition br1 (s : bytes) (minus num num_len : Z) (dec_point : option Z) (dp dot : Z) : jres expres :=
+    let zeros := Z.abs dp in
+    let buf_len := u64 (minus + 1 + dot + zeros + num_len) in
+    let* b := get_buffer buf_len in
+    let* (b, i) := maybe_minus b minus in
+    let* b := wrb b i 48%N in
+    let* b := wrb b (i + 1) 46%N in
+    let* b := fillb b (i + 2) (u64 zeros) 48%N in
+    let i := u32 (i + 2 + zeros) in
+    let* (b, d) := copy_num_part s num num_len dec_point (-1) b i in
+    finish b buf_len (i + d) 1.
+
+Definition br2 (s : bytes) (minus num num_len dp : Z) : jres expres :=
+    let num := num + 1 in
+    let num_len := u16 (num_len - 1) in
+    let dp := i32 (dp - 1) in
+    let* zeros := count_in_row s num (num + dp + 1) 48%N false in
+    let allz := zeros =? dp + 1 in
+    let dp := if allz then 1 else i32 (dp + 1 - zeros) in
+    let zeros := if allz then zeros - 1 else zeros in
+    let dot := if allz then 1 else (if dp <? num_len - zeros then 1 else 0) in
+    let buf_len := u64 (minus + dot + (num_len - zeros)) in
+    let* b := get_buffer buf_len in
+    let* (b, i) := maybe_minus b minus in
+    let* (b, d) := copy_num_part s (num + zeros) (num_len - zeros) None dp b i in
+    finish b buf_len (i + d) 2.
+
+Definition br3 (s : bytes) (minus num num_len : Z) (dec_point : option Z) (dp dot : Z) : jres expres :=
+    let buf_len := u64 (minus + dot + num_len) in
+    let* b := get_buffer buf_len in
+    let* (b, i) := maybe_minus b minus in
+    let* (b, d) := copy_num_part s num num_len dec_point dp b i in
+    finish b buf_len (i + d) 3.
+
+Definition br4 (s : bytes) (minus num num_len dp : Z) : jres expres :=
+    let num := num + 1 in
+    let num_len := u16 (num_len - 1) in
+    let* zeros := count_in_row s num (num + num_len) 48%N false in
+    let buf_len := u64 (minus + dp - zeros) in
+    let* b := get_buffer buf_len in
+    let* (b, i) := maybe_minus b minus in
+    let* (b, d) := copy_num_part s (num + zeros) (num_len - zeros) None dp b i in
+    let i := u32 (i + d) in
+    let* b := fillb b i (u64 (buf_len - i)) 48%N in
+    finish b buf_len (i + u64 (buf_len - i)) 4.
+
+Definition br5 (s : bytes) (minus num num_len : Z) (dec_point : option Z) (dp : Z) : jres expres :=
+    let buf_len := u64 (minus + dp) in
+    let* b := get_buffer buf_len in
+    let* (b, i) := maybe_minus b minus in
+    let* (b, d) := copy_num_part s num num_len dec_point dp b i in
+    let i := u32 (i + d) in
+    let* b := fillb b i (u64 (buf_len - i)) 48%N in
+    finish b buf_len (i + u64 (buf_len - i)) 5.
+
+Definition xdot (dec_point : option Z) (num_len dp : Z) : Z :=
+  match dec_point with
+  | Some _ => if i32 (num_len - 1) =? dp then -1 else 0
+  | None => 1
+  end.
+
+Definition xlayout (s : bytes) (ex minus : Z) (lz : bool) (num num_len0 : Z) (dec_point : option Z) (dp cnt : Z)
+  : jres expres :=
+  let num_len := u16 (num_len0 - cnt) in
+  let dot := xdot dec_point num_len dp in
+  if dp <=? 0 then br1 s minus num num_len dec_point dp dot
+  else if lz && (dp <? num_len) then br2 s minus num num_len dp
+  else if dp <? num_len then br3 s minus num num_len dec_point dp dot
+  else if lz then br4 s minus num num_len dp
+  else br5 s minus num num_len dec_point dp.
+
+Definition xmid (s : bytes) (ex minus : Z) (lz : bool) (e_val : Z) : jres expres :=
+  let num := if lz then minus + 1 else minus in
+  let num_len := u16 (ex - num) in
+  let* dec_point := strnchr (Z.to_nat num_len) s num 46%N in
+  let dp := i32 (match dec_point with Some p => p - num + e_val | None => num_len + e_val end) in
+  let* cnt := if 0 <? dp then count_in_row s (num + dp - 1) ex 48%N true
+              else count_in_row s num ex 48%N true in
+  xlayout s ex minus lz num num_len dec_point dp cnt.
+
+Lemma exp_number_eq s ex total_len :
+  exp_number s ex total_len =
+  if negb (2 <? total_len) then JOob else
+  let* ce := rdin s ex in
+  if negb ((0 <? ex) && ((ce =? 101)%N || (ce =? 69)%N)) then JOob else
+  if UINT16_MAX <? ex then JErr E_LONG else
+  let* (e_val, errno) := strtoll s (ex + 1) in
+  if errno || (UINT16_MAX <? e_val) || (e_val <? - UINT16_MAX) then JErr E_EXP else
+  let* c0 := rdin s 0 in
+  let minus := if (c0 =? 45)%N then 1 else 0 in
+  let* cm := rdin s minus in
+  let* lz := if (cm =? 48)%N
+             then (let* c1 := rdin s (minus + 1) in if (c1 =? 46)%N then JOk true else JOob)
+             else JOk false in
+  xmid s ex minus lz e_val.
+Proof. reflexivity. Qed.
+
+Lemma srcl_length cnt : forall s num di n, Ln (srcl cnt s num di n) = cm n (Z.of_nat cnt) di.
+Proof.
+  induction cnt as [|cnt IH]; intros s num di n; cbn [srcl]; [unfold cm; cbn [length]; lia|].
+  destruct (n =? di) eqn:Hn; [|cbn [length]]; rewrite ?Nat2Z.inj_succ, IH; unfold cm; lia.
+Qed.
+
+(* layout 1: 0.000ddd *)
+Lemma br1_good s minus num num_len dec_point dp dot :
+  minus = 0 \/ minus = 1 -> 0 <= num -> 1 <= num_len <= 65535 -> num + num_len <= Ln s + 1 ->
+  -131070 <= dp <= 0 ->
+  match dec_point with Some p => 0 <= p - num < num_len /\ dot = 0 | None => dot = 1 end ->
+  forall Gs, Gs = srcl (Z.to_nat num_len) s num (decidx dec_point num) 0 -> Gs <> [] -> Forall isd Gs ->
+  xgood (den minus (dval Gs 0) (dp - Ln Gs)) (br1 s minus num num_len dec_point dp dot).
+Proof.
+  intros Hm Hnum Hlen Hrd Hdp Hdec Gs HGs HGne HGd. unfold br1. cbv zeta.
+  assert (Hdot : 0 <= dot <= 1) by (destruct dec_point; lia).
+  rewrite (u64_id (minus + 1 + dot + Z.abs dp + num_len)) by lia.
+  remember (minus + 1 + dot + Z.abs dp + num_len) as buf_len eqn:Hbl.
+  destruct (get_buffer_cases buf_len) as [Hg | (Hle & b0 & Hg & Hl0 & Hp0)];
+    [lia|rewrite Hg; apply xgood_maxlen|].
+  rewrite Hg. cbn [jbind].
+  destruct (maybe_minus_step b0 minus Hm) as (b1 & He1 & Hl1 & Hp1); [lia|exact Hp0|].
+  rewrite He1. cbn [jbind].
+  destruct (wrb_step b1 minus _ 48%N Hp1) as (b2 & He2 & Hl2 & Hp2); [lia|].
+  rewrite He2. cbn [jbind].
+  destruct (wrb_step b2 (minus + 1) _ 46%N Hp2) as (b3 & He3 & Hl3 & Hp3); [lia|].
+  rewrite He3. cbn [jbind].
+  rewrite (u64_id (Z.abs dp)) by lia.
+  replace (minus + 1 + 1) with (minus + 2) in Hp3 by lia.
+  destruct (fillb_step b3 (minus + 2) _ (Z.abs dp) 48%N Hp3) as (b4 & He4 & Hl4 & Hp4); [lia|lia|].
+  rewrite He4. cbn [jbind].
+  rewrite (u32_id (minus + 2 + Z.abs dp)) by lia.
+  destruct (copy_num_part_step s num num_len dec_point (-1) b4 _ (minus + 2 + Z.abs dp) (num_len - 1 + dot) 0 Hp4)
+    as (b5 & He5 & Hl5 & Hp5).
+  - exact Hnum.
+  - lia.
+  - exact Hrd.
+  - intros p Hpe. rewrite Hpe in Hdec. lia.
+  - unfold decidx, INT32_MAX. destruct dec_point; lia.
+  - unfold cm, decidx, INT32_MAX. destruct dec_point; lia.
+  - unfold cins. lia.
+  - lia.
+  - rewrite He5. cbn [jbind].
+    replace (minus + 2 + Z.abs dp + (num_len - 1 + dot + 0)) with buf_len in * by lia.
+    eapply finish_step; [lia|lia|exact Hp5|].
+    rewrite copy_list_eq, ins_at_out by lia. rewrite <- HGs. rewrite <- !app_assoc.
+    replace (dp - Ln Gs) with (- Z.of_nat (Z.to_nat (Z.abs dp)) - Ln Gs) by lia.
+    exact (den_l1 minus Gs (Z.to_nat (Z.abs dp)) Hm HGne HGd).
+Qed.
+
+Lemma srcl_len_sd s num num_len dec_point :
+  0 <= num_len <= 65535 ->
+  (forall p, dec_point = Some p -> 0 <= p - num < num_len) ->
+  Ln (srcl (Z.to_nat num_len) s num (decidx dec_point num) 0)
+  = num_len - match dec_point with Some _ => 1 | None => 0 end.
+Proof.
+  intros Hlen Hdec. rewrite srcl_length, Z2Nat.id by lia. unfold cm, decidx, INT32_MAX.
+  destruct dec_point as [p|]; [specialize (Hdec p eq_refl)|]; lia.
+Qed.
+
+(* layout 3: the decimal point moves inside the digits (no leading 0.) *)
+Lemma br3_good s minus num num_len dec_point dp dot :
+  minus = 0 \/ minus = 1 -> 0 <= num -> num_len <= 65535 -> num + num_len <= Ln s + 1 ->
+  0 < dp < num_len ->
+  match dec_point with
+  | Some p => 0 <= p - num < num_len /\ p - num <> dp /\
+              ((num_len - 1 = dp /\ dot = -1) \/ (num_len - 1 <> dp /\ dot = 0))
+  | None => dot = 1
+  end ->
+  forall Gs, Gs = srcl (Z.to_nat num_len) s num (decidx dec_point num) 0 -> Forall isd Gs ->
+  xgood (den minus (dval Gs 0) (dp - Ln Gs)) (br3 s minus num num_len dec_point dp dot).
+Proof.
+  intros Hm Hnum Hlen Hrd Hdp Hdec Gs HGs HGd. unfold br3. cbv zeta.
+  assert (Hdot : -1 <= dot <= 1) by (destruct dec_point; lia).
+  pose (sd := match dec_point with Some _ => 1 | None => 0 end).
+  assert (HGl : Ln Gs = num_len - sd).
+  { rewrite HGs. apply srcl_len_sd; [lia|]. intros p Hpe. rewrite Hpe in Hdec. lia. }
+  rewrite (u64_id (minus + dot + num_len)) by lia.
+  remember (minus + dot + num_len) as buf_len eqn:Hbl.
+  destruct (get_buffer_cases buf_len) as [Hg | (Hle & b0 & Hg & Hl0 & Hp0)];
+    [lia|rewrite Hg; apply xgood_maxlen|].
+  rewrite Hg. cbn [jbind].
+  destruct (maybe_minus_step b0 minus Hm) as (b1 & He1 & Hl1 & Hp1); [lia|exact Hp0|].
+  rewrite He1. cbn [jbind].
+  destruct (copy_num_part_step s num num_len dec_point dp b1 _ minus (num_len - sd) (dot + sd) Hp1)
+    as (b5 & He5 & Hl5 & Hp5).
+  - exact Hnum.
+  - lia.
+  - exact Hrd.
+  - intros p Hpe. rewrite Hpe in Hdec. lia.
+  - unfold decidx, INT32_MAX. destruct dec_point; lia.
+  - unfold cm, decidx, INT32_MAX. subst sd. destruct dec_point; lia.
+  - unfold cins. subst sd. destruct dec_point; lia.
+  - subst sd. destruct dec_point; lia.
+  - rewrite He5. cbn [jbind].
+    replace (minus + (num_len - sd + (dot + sd))) with buf_len in * by lia.
+    eapply finish_step; [lia|lia|exact Hp5|].
+    rewrite copy_list_eq. rewrite <- HGs. replace (dp - 0) with dp by lia.
+    apply den_ins; [exact Hm| |exact HGd]. subst sd. destruct dec_point; lia.
+Qed.
+
+(* layout 5: ddd or d.dd becomes an integer *)
+Lemma br5_good s minus num num_len dec_point dp :
+  minus = 0 \/ minus = 1 -> 0 <= num -> 0 <= num_len <= 65535 -> num + num_len <= Ln s + 1 ->
+  0 < dp <= 131070 -> num_len <= dp ->
+  match dec_point with
+  | Some p => 0 <= p - num < num_len /\ p - num <> dp
+  | None => True
+  end ->
+  forall Gs, Gs = srcl (Z.to_nat num_len) s num (decidx dec_point num) 0 -> Forall isd Gs ->
+  xgood (den minus (dval Gs 0) (dp - Ln Gs)) (br5 s minus num num_len dec_point dp).
+Proof.
+  intros Hm Hnum Hlen Hrd Hdp Hge Hdec Gs HGs HGd. unfold br5. cbv zeta.
+  pose (sd := match dec_point with Some _ => 1 | None => 0 end).
+  assert (HGl : Ln Gs = num_len - sd).
+  { rewrite HGs. apply srcl_len_sd; [lia|]. intros p Hpe. rewrite Hpe in Hdec. lia. }
+  rewrite (u64_id (minus + dp)) by lia.
+  remember (minus + dp) as buf_len eqn:Hbl.
+  destruct (get_buffer_cases buf_len) as [Hg | (Hle & b0 & Hg & Hl0 & Hp0)];
+    [lia|rewrite Hg; apply xgood_maxlen|].
+  rewrite Hg. cbn [jbind].
+  destruct (maybe_minus_step b0 minus Hm) as (b1 & He1 & Hl1 & Hp1); [lia|exact Hp0|].
+  rewrite He1. cbn [jbind].
+  destruct (copy_num_part_step s num num_len dec_point dp b1 _ minus (num_len - sd) 0 Hp1)
+    as (b5 & He5 & Hl5 & Hp5).
+  - exact Hnum.
+  - lia.
+  - exact Hrd.
+  - intros p Hpe. rewrite Hpe in Hdec. lia.
+  - unfold decidx, INT32_MAX. destruct dec_point; lia.
+  - unfold cm, decidx, INT32_MAX. subst sd. destruct dec_point; lia.
+  - unfold cins. subst sd. destruct dec_point; lia.
+  - subst sd. destruct dec_point; lia.
+  - rewrite He5. cbn [jbind].
+    assert (Hsd : 0 <= sd <= 1 /\ sd <= num_len) by (subst sd; destruct dec_point; lia).
+    clearbody sd.
+    replace (num_len - sd + 0) with (Ln Gs) in * by lia.
+    rewrite (u32_id (minus + Ln Gs)) by lia.
+    rewrite (u64_id (buf_len - (minus + Ln Gs))) by lia.
+    destruct (fillb_step b5 (minus + Ln Gs) _ (buf_len - (minus + Ln Gs)) 48%N Hp5)
+      as (b6 & He6 & Hl6 & Hp6); [lia|lia|].
+    rewrite He6. cbn [jbind].
+    replace (minus + Ln Gs + (buf_len - (minus + Ln Gs))) with buf_len in * by lia.
+    eapply finish_step; [lia|lia|exact Hp6|].
+    rewrite copy_list_eq. rewrite <- HGs. rewrite ins_at_out by lia. rewrite <- app_assoc.
+    replace (buf_len - (minus + Ln Gs)) with (dp - Ln Gs) by lia.
+    apply den_fill; [exact Hm|lia|lia|exact HGd].
+Qed.
+
+(* the digits behind a dropped 0. : leading zeros, then the part that is copied *)
+Lemma sub_zeros_split s a z e :
+  0 <= a -> 0 <= z -> a + z <= e -> e <= Ln s -> (forall j, a <= j < a + z -> bat s j = 48%N) ->
+  sub s a e = repeat 48%N (Z.to_nat z) ++ sub s (a + z) e.
+Proof.
+  intros Ha Hz He HL Hall. rewrite (sub_app s a (a + z) e) by lia.
+  rewrite (sub_repeat s a (a + z) 48%N) by (try lia; exact Hall). do 2 f_equal. lia.
+Qed.
+
+Lemma srcl_plain s num n :
+  0 <= num -> 0 <= n <= 65535 -> num + n <= Ln s ->
+  srcl (Z.to_nat n) s num (decidx None num) 0 = sub s num (num + n).
+Proof.
+  intros Hnum Hn HL. unfold decidx, INT32_MAX. rewrite srcl_none by lia. f_equal; lia.
+Qed.
+
+(* layout 4: 0.ddd becomes an integer *)
+Lemma br4_good s minus num num_len dp :
+  Ln s < 4294967296 ->
+  minus = 0 \/ minus = 1 -> 0 <= num -> 1 <= num_len <= 65535 -> num + num_len <= Ln s ->
+  0 < dp <= 131070 -> num_len <= dp ->
+  forall Gs, Gs = sub s (num + 1) (num + num_len) -> Forall isd Gs ->
+  xgood (den minus (dval Gs 0) (dp - Ln Gs)) (br4 s minus num num_len dp).
+Proof.
+  intros HL Hm Hnum Hlen Hrd Hdp Hge Gs HGs HGd. unfold br4. cbv zeta.
+  rewrite (u16_id (num_len - 1)) by lia.
+  destruct (count_in_row_fwd s (num + 1) (num + 1 + (num_len - 1)) 48%N HL) as (zeros & Hz & Hzr & Hzall & _);
+    [lia|lia|].
+  rewrite Hz. cbn [jbind].
+  assert (HGl : Ln Gs = num_len - 1) by (rewrite HGs, sub_length by lia; lia).
+  remember (sub s (num + 1 + zeros) (num + num_len)) as T eqn:HT.
+  assert (HGsplit : Gs = repeat 48%N (Z.to_nat zeros) ++ T).
+  { rewrite HGs, HT. apply sub_zeros_split; try lia. exact Hzall. }
+  assert (HTl : Ln T = num_len - 1 - zeros) by (rewrite HT, sub_length by lia; lia).
+  assert (HTd : Forall isd T) by (rewrite HGsplit in HGd; apply Forall_app in HGd; tauto).
+  rewrite (u64_id (minus + dp - zeros)) by lia.
+  remember (minus + dp - zeros) as buf_len eqn:Hbl.
+  destruct (get_buffer_cases buf_len) as [Hg | (Hle & b0 & Hg & Hl0 & Hp0)];
+    [lia|rewrite Hg; apply xgood_maxlen|].
+  rewrite Hg. cbn [jbind].
+  destruct (maybe_minus_step b0 minus Hm) as (b1 & He1 & Hl1 & Hp1); [lia|exact Hp0|].
+  rewrite He1. cbn [jbind].
+  destruct (copy_num_part_step s (num + 1 + zeros) (num_len - 1 - zeros) None dp b1 _ minus
+              (num_len - 1 - zeros) 0 Hp1) as (b5 & He5 & Hl5 & Hp5).
+  - lia.
+  - lia.
+  - lia.
+  - intros p Hpe. discriminate.
+  - unfold decidx, INT32_MAX. lia.
+  - unfold cm, decidx, INT32_MAX. lia.
+  - unfold cins. lia.
+  - lia.
+  - rewrite He5. cbn [jbind].
+    rewrite copy_list_eq, srcl_plain in Hp5 by lia.
+    replace (num + 1 + zeros + (num_len - 1 - zeros)) with (num + num_len) in Hp5 by lia.
+    rewrite <- HT in Hp5. rewrite ins_at_out in Hp5 by lia.
+    replace (num_len - 1 - zeros + 0) with (Ln T) in * by lia.
+    rewrite (u32_id (minus + Ln T)) by lia.
+    rewrite (u64_id (buf_len - (minus + Ln T))) by lia.
+    destruct (fillb_step b5 (minus + Ln T) _ (buf_len - (minus + Ln T)) 48%N Hp5)
+      as (b6 & He6 & Hl6 & Hp6); [lia|lia|].
+    rewrite He6. cbn [jbind].
+    replace (minus + Ln T + (buf_len - (minus + Ln T))) with buf_len in * by lia.
+    eapply finish_step; [lia|lia|exact Hp6|].
+    rewrite <- app_assoc.
+    replace (dp - Ln Gs) with (dp - zeros - Ln T) by lia. rewrite HGsplit. apply den_zeros.
+    replace (buf_len - (minus + Ln T)) with (dp - zeros - Ln T) by lia.
+    apply den_fill; [exact Hm|lia|lia|exact HTd].
+Qed.
+
+(* layout 2: 0.ddd with the new decimal point inside the digits (as fixed by /repo 63186d2). The lower
+   bound of the all-zeros case needs that the last digit left after stripping is not 0. *)
+Lemma br2_good s minus num num_len dp :
+  Ln s < 4294967296 ->
+  minus = 0 \/ minus = 1 -> 0 <= num -> num_len <= 65535 -> num + num_len <= Ln s ->
+  0 < dp < num_len -> bat s (num + num_len - 1) <> 48%N ->
+  forall Gs, Gs = sub s (num + 1) (num + num_len) -> Forall isd Gs ->
+  xgood (den minus (dval Gs 0) (dp - Ln Gs)) (br2 s minus num num_len dp).
+Proof.
+  intros HL Hm Hnum Hlen Hrd Hdp Hlast Gs HGs HGd. unfold br2. cbv zeta.
+  rewrite (u16_id (num_len - 1)) by lia. rewrite (i32_id (dp - 1)) by lia.
+  destruct (count_in_row_fwd s (num + 1) (num + 1 + (dp - 1) + 1) 48%N HL) as (zeros & Hz & Hzr & Hzall & _);
+    [lia|lia|].
+  rewrite Hz. cbn [jbind].
+  assert (HGl : Ln Gs = num_len - 1) by (rewrite HGs, sub_length by lia; lia).
+  destruct (zeros =? dp - 1 + 1) eqn:Hallz.
+  - (* only zeros up to the new decimal point: one of them is kept *)
+    assert (Hbig : dp < num_len - 1).
+    { destruct (Z_lt_ge_dec dp (num_len - 1)) as [Hlt|Hge]; [exact Hlt|]. exfalso. apply Hlast.
+      apply Hzall. lia. }
+    remember (sub s (num + 1 + (zeros - 1)) (num + num_len)) as T eqn:HT.
+    assert (HGsplit : Gs = repeat 48%N (Z.to_nat (zeros - 1)) ++ T).
+    { rewrite HGs, HT. apply sub_zeros_split; try lia. intros j Hj. apply Hzall. lia. }
+    assert (HTl : Ln T = num_len - 1 - (zeros - 1)) by (rewrite HT, sub_length by lia; lia).
+    assert (HTd : Forall isd T) by (rewrite HGsplit in HGd; apply Forall_app in HGd; tauto).
+    replace (1 <? num_len - 1 - (zeros - 1)) with true by lia.
+    rewrite (u64_id (minus + 1 + (num_len - 1 - (zeros - 1)))) by lia.
+    remember (minus + 1 + (num_len - 1 - (zeros - 1))) as buf_len eqn:Hbl.
+    destruct (get_buffer_cases buf_len) as [Hg | (Hle & b0 & Hg & Hl0 & Hp0)];
+      [lia|rewrite Hg; apply xgood_maxlen|].
+    rewrite Hg. cbn [jbind].
+    destruct (maybe_minus_step b0 minus Hm) as (b1 & He1 & Hl1 & Hp1); [lia|exact Hp0|].
+    rewrite He1. cbn [jbind].
+    destruct (copy_num_part_step s (num + 1 + (zeros - 1)) (num_len - 1 - (zeros - 1)) None 1 b1 _ minus
+                (num_len - 1 - (zeros - 1)) 1 Hp1) as (b5 & He5 & Hl5 & Hp5).
+    + lia.
+    + lia.
+    + lia.
+    + intros p Hpe. discriminate.
+    + unfold decidx, INT32_MAX. lia.
+    + unfold cm, decidx, INT32_MAX. lia.
+    + unfold cins. lia.
+    + lia.
+    + rewrite He5. cbn [jbind].
+      rewrite copy_list_eq, srcl_plain in Hp5 by lia.
+      replace (num + 1 + (zeros - 1) + (num_len - 1 - (zeros - 1))) with (num + num_len) in Hp5 by lia.
+      rewrite <- HT in Hp5.
+      replace (minus + (num_len - 1 - (zeros - 1) + 1)) with buf_len in * by lia.
+      eapply finish_step; [lia|lia|exact Hp5|].
+      replace (dp - Ln Gs) with (1 - Ln T) by lia. rewrite HGsplit. apply den_zeros.
+      replace (1 - 0) with 1 by lia. apply den_ins; [exact Hm|lia|exact HTd].
+  - rewrite (i32_id (dp - 1 + 1 - zeros)) by lia.
+    remember (sub s (num + 1 + zeros) (num + num_len)) as T eqn:HT.
+    assert (HGsplit : Gs = repeat 48%N (Z.to_nat zeros) ++ T).
+    { rewrite HGs, HT. apply sub_zeros_split; try lia. intros j Hj. apply Hzall. lia. }
+    assert (HTl : Ln T = num_len - 1 - zeros) by (rewrite HT, sub_length by lia; lia).
+    assert (HTd : Forall isd T) by (rewrite HGsplit in HGd; apply Forall_app in HGd; tauto).
+    replace (if dp - 1 + 1 - zeros <? num_len - 1 - zeros then 1 else 0)
+      with (cins 0 (dp - 1 + 1 - zeros) (num_len - 1 - zeros))
+      by (unfold cins; destruct (dp - 1 + 1 - zeros <? num_len - 1 - zeros) eqn:Hc; lia).
+    remember (cins 0 (dp - 1 + 1 - zeros) (num_len - 1 - zeros)) as ins eqn:Hins.
+    assert (Hins01 : 0 <= ins <= 1) by (rewrite Hins; unfold cins; lia).
+    rewrite (u64_id (minus + ins + (num_len - 1 - zeros))) by lia.
+    remember (minus + ins + (num_len - 1 - zeros)) as buf_len eqn:Hbl.
+    destruct (get_buffer_cases buf_len) as [Hg | (Hle & b0 & Hg & Hl0 & Hp0)];
+      [lia|rewrite Hg; apply xgood_maxlen|].
+    rewrite Hg. cbn [jbind].
+    destruct (maybe_minus_step b0 minus Hm) as (b1 & He1 & Hl1 & Hp1); [lia|exact Hp0|].
+    rewrite He1. cbn [jbind].
+    destruct (copy_num_part_step s (num + 1 + zeros) (num_len - 1 - zeros) None (dp - 1 + 1 - zeros) b1 _ minus
+                (num_len - 1 - zeros) ins Hp1) as (b5 & He5 & Hl5 & Hp5).
+    + lia.
+    + lia.
+    + lia.
+    + intros p Hpe. discriminate.
+    + unfold decidx, INT32_MAX. lia.
+    + unfold cm, decidx, INT32_MAX. lia.
+    + exact Hins.
+    + lia.
+    + rewrite He5. cbn [jbind].
+      rewrite copy_list_eq, srcl_plain in Hp5 by lia.
+      replace (num + 1 + zeros + (num_len - 1 - zeros)) with (num + num_len) in Hp5 by lia.
+      rewrite <- HT in Hp5.
+      replace (minus + (num_len - 1 - zeros + ins)) with buf_len in * by lia.
+      eapply finish_step; [lia|lia|exact Hp5|].
+      replace (dp - Ln Gs) with (dp - zeros - Ln T) by lia. rewrite HGsplit. apply den_zeros.
+      replace (dp - 1 + 1 - zeros - 0) with (dp - zeros) by lia. apply den_ins; [exact Hm|lia|exact HTd].
+Qed.
+
+Lemma srcl_point s num num_len p :
+  0 <= num -> num <= p < num + num_len -> num_len <= 65535 -> num + num_len <= Ln s ->
+  srcl (Z.to_nat num_len) s num (decidx (Some p) num) 0 = sub s num p ++ sub s (p + 1) (num + num_len).
+Proof.
+  intros Hnum Hp Hlen HL. unfold decidx. rewrite srcl_some by lia. f_equal; f_equal; lia.
+Qed.
+
+(* the choice of the layout after the useless zeros were counted. [o1] is the offset of the decimal
+   point of the mantissa, or its end when there is none; the digits of the mantissa (without the point
+   and without a leading 0 before it) are G, the number is +-G x 10^(dp - length G) *)
+Lemma xlayout_good s ex minus (lz : bool) num o1 e_val (dec_point : option Z) dp cnt :
+  Ln s < 4294967296 -> minus = 0 \/ minus = 1 ->
+  num = (if lz then minus + 1 else minus) ->
+  num < ex -> ex <= 65535 -> ex <= Ln s ->
+  num <= o1 <= ex ->
+  (forall k, num <= k < ex -> k <> o1 -> is_digit (bat s k) = true) ->
+  ((o1 = ex /\ dec_point = None) \/ (o1 < ex /\ bat s o1 = 46%N /\ dec_point = Some o1)) ->
+  (if lz then o1 = num else num < o1 /\ bat s num <> 48%N) ->
+  (exists k, num <= k < ex /\ k <> o1 /\ bat s k <> 48%N) ->
+  e_val <> 0 -> -65535 <= e_val <= 65535 ->
+  dp = (o1 - num) + e_val ->
+  0 <= cnt <= Z.max 0 (ex - (if 0 <? dp then num + dp - 1 else num)) ->
+  (forall j, ex - cnt <= j < ex -> bat s j = 48%N) ->
+  (cnt < ex - (if 0 <? dp then num + dp - 1 else num) -> bat s (ex - 1 - cnt) <> 48%N) ->
+  forall G, G = sub s num o1 ++ sub s (o1 + 1) ex ->
+  xgood (den minus (dval G 0) (dp - Ln G)) (xlayout s ex minus lz num (ex - num) dec_point dp cnt).
+Proof.
+  intros HL Hm Hnum Hlt Hex HexL Ho1 Hdig Hpt Hlz (kz & Hkz & Hkzo & Hkz48) He0 Her Hdp Hcnt Hcall Hcstop G HG.
+  assert (Hnum0 : 0 <= num) by (destruct lz; lia).
+  assert (Hcle : cnt <= ex - num) by (destruct (0 <? dp) eqn:Hd; lia).
+  assert (Hdpr : -131070 <= dp <= 131070) by lia.
+  unfold xlayout. cbv zeta. rewrite (u16_id (ex - num - cnt)) by lia.
+  remember (ex - num - cnt) as num_len eqn:Hnl.
+  assert (Hkzl : kz < ex - cnt).
+  { destruct (Z_lt_ge_dec kz (ex - cnt)) as [Hl|Hg]; [exact Hl|]. exfalso. apply Hkz48. apply Hcall. lia. }
+  assert (Hdecr : forall p, dec_point = Some p -> p = o1 /\ 0 <= p - num < num_len /\ bat s p = 46%N).
+  { intros p Hpe. destruct Hpt as [(_ & Hn)|(Hl & H46 & Hs)]; [congruence|].
+    assert (p = o1) by congruence. subst p. split; [reflexivity|]. split; [|exact H46]. split; [lia|].
+    destruct (Z_lt_ge_dec o1 (ex - cnt)) as [Hl2|Hg]; [lia|]. exfalso.
+    rewrite (Hcall o1) in H46 by lia. discriminate. }
+  remember (srcl (Z.to_nat num_len) s num (decidx dec_point num) 0) as Gs eqn:HGs.
+  assert (HGform : Gs = sub s num (Z.min o1 (ex - cnt)) ++ sub s (o1 + 1) (ex - cnt)).
+  { rewrite HGs. destruct Hpt as [(Hoe & Hn)|(Hl & H46 & Hs)].
+    - rewrite Hn. rewrite srcl_plain by lia. rewrite (sub_nil s (o1 + 1)) by lia. rewrite app_nil_r.
+      f_equal; lia.
+    - destruct (Hdecr o1 Hs) as (_ & Hr & _). rewrite Hs. rewrite srcl_point by lia. f_equal; f_equal; lia. }
+  assert (HGsd : Forall isd Gs).
+  { rewrite HGform. apply Forall_app. split; apply sub_Forall; try lia; intros k Hk; apply Hdig; lia. }
+  assert (HGapp : G = Gs ++ repeat 48%N (Z.to_nat cnt)).
+  { rewrite HG, HGform. destruct Hpt as [(Hoe & Hn)|(Hl & H46 & Hs)].
+    - rewrite !(sub_nil s (o1 + 1)) by lia. rewrite !app_nil_r.
+      rewrite (sub_app s num (ex - cnt) o1) by lia. rewrite (sub_repeat s (ex - cnt) o1 48%N) by (try lia; intros k Hk; apply Hcall; lia).
+      replace (Z.min o1 (ex - cnt)) with (ex - cnt) by lia. do 2 f_equal. lia.
+    - destruct (Hdecr o1 Hs) as (_ & Hr & _).
+      rewrite (sub_app s (o1 + 1) (ex - cnt) ex) by lia.
+      rewrite (sub_repeat s (ex - cnt) ex 48%N) by (try lia; exact Hcall).
+      replace (Z.min o1 (ex - cnt)) with o1 by lia. rewrite app_assoc. do 2 f_equal. lia. }
+  assert (HGsl : Ln Gs = num_len - match dec_point with Some _ => 1 | None => 0 end).
+  { rewrite HGs. apply srcl_len_sd; [lia|]. intros p Hpe. apply (Hdecr p Hpe). }
+  assert (HGne : Gs <> []).
+  { apply length_zero_nil. rewrite HGsl. destruct dec_point as [p|]; [|lia].
+    destruct (Hdecr p eq_refl) as (Hpo & Hr & _). lia. }
+  apply (xgood_impl (den minus (dval Gs 0) (dp - Ln Gs))).
+  { intros out Hout. rewrite HGapp, app_length, repeat_length.
+    replace (dp - Z.of_nat (length Gs + Z.to_nat cnt)) with (dp - Ln Gs - Z.of_nat (Z.to_nat cnt)) by lia.
+    apply den_strip. exact Hout. }
+  assert (Hdot : match dec_point with
+                 | Some _ => (num_len - 1 = dp /\ xdot dec_point num_len dp = -1) \/
+                             (num_len - 1 <> dp /\ xdot dec_point num_len dp = 0)
+                 | None => xdot dec_point num_len dp = 1
+                 end).
+  { unfold xdot. destruct dec_point as [p|]; [|reflexivity]. rewrite i32_id by lia.
+    destruct (num_len - 1 =? dp) eqn:Hq; [left|right]; split; lia. }
+  remember (xdot dec_point num_len dp) as dot eqn:Hdoteq. clear Hdoteq.
+  destruct (dp <=? 0) eqn:Hdp0.
+  - (* layout 1 *)
+    assert (Hnl1 : 1 <= num_len) by (destruct dec_point; lia).
+    apply br1_good; [exact Hm|exact Hnum0|lia|lia|lia| |exact HGs|exact HGne|exact HGsd].
+    destruct dec_point as [p|]; [|exact Hdot]. destruct (Hdecr p eq_refl) as (Hpo & Hr & _). split; [exact Hr|]. lia.
+  - replace (0 <? dp) with true in * by lia.
+    assert (Hlast : dp < num_len -> bat s (num + num_len - 1) <> 48%N).
+    { intro Hlt2. replace (num + num_len - 1) with (ex - 1 - cnt) by lia. apply Hcstop. lia. }
+    destruct lz.
+    + cbn [andb]. subst o1.
+      assert (Hsome : dec_point = Some num) by (destruct Hpt as [(Hoe & _)|(_ & _ & Hs)]; [lia|exact Hs]).
+      destruct (Hdecr num Hsome) as (_ & Hr & _).
+      assert (HGsub : Gs = sub s (num + 1) (num + num_len)).
+      { rewrite HGform. rewrite (sub_nil s num) by lia. cbn [app]. f_equal. lia. }
+      destruct (dp <? num_len) eqn:Hin.
+      * apply br2_good; [exact HL|exact Hm|exact Hnum0|lia|lia|lia|apply Hlast; lia|exact HGsub|exact HGsd].
+      * apply br4_good; [exact HL|exact Hm|exact Hnum0|lia|lia|lia|lia|exact HGsub|exact HGsd].
+    + cbn [andb]. destruct (dp <? num_len) eqn:Hin.
+      * apply br3_good; [exact Hm|exact Hnum0|lia|lia|lia| |exact HGs|exact HGsd].
+        destruct dec_point as [p|]; [|exact Hdot]. destruct (Hdecr p eq_refl) as (Hpo & Hr & _).
+        split; [exact Hr|]. split; [lia|exact Hdot].
+      * apply br5_good; [exact Hm|exact Hnum0|lia|lia|lia|lia| |exact HGs|exact HGsd].
+        destruct dec_point as [p|]; [|exact I]. destruct (Hdecr p eq_refl) as (Hpo & Hr & _). split; [exact Hr|lia].
+Qed.
+
+Lemma xmid_tail s ex minus (lz : bool) num o1 e_val (dec_point : option Z) dp :
+  Ln s < 4294967296 -> minus = 0 \/ minus = 1 ->
+  num = (if lz then minus + 1 else minus) ->
+  num < ex -> ex <= 65535 -> ex <= Ln s ->
+  num <= o1 <= ex ->
+  (forall k, num <= k < ex -> k <> o1 -> is_digit (bat s k) = true) ->
+  ((o1 = ex /\ dec_point = None) \/ (o1 < ex /\ bat s o1 = 46%N /\ dec_point = Some o1)) ->
+  (if lz then o1 = num else num < o1 /\ bat s num <> 48%N) ->
+  (exists k, num <= k < ex /\ k <> o1 /\ bat s k <> 48%N) ->
+  e_val <> 0 -> -65535 <= e_val <= 65535 ->
+  dp = (o1 - num) + e_val ->
+  forall G, G = sub s num o1 ++ sub s (o1 + 1) ex ->
+  xgood (den minus (dval G 0) (dp - Ln G))
+        (let* cnt := if 0 <? dp then count_in_row s (num + dp - 1) ex 48%N true
+                     else count_in_row s num ex 48%N true in
+         xlayout s ex minus lz num (ex - num) dec_point dp cnt).
+Proof.
+  intros HL Hm Hnum Hlt Hex HexL Ho1 Hdig Hpt Hlz Hnz He0 Her Hdp G HG.
+  assert (Hnum0 : 0 <= num) by (destruct lz; lia).
+  destruct (0 <? dp) eqn:Hd.
+  - destruct (count_in_row_bwd s (num + dp - 1) ex 48%N HL) as (cnt & Hc & Hcr & Hcall & Hcstop); [lia|lia|].
+    rewrite Hc. cbn [jbind].
+    apply (xlayout_good s ex minus lz num o1 e_val dec_point dp cnt); try assumption; rewrite Hd; assumption.
+  - destruct (count_in_row_bwd s num ex 48%N HL) as (cnt & Hc & Hcr & Hcall & Hcstop); [lia|lia|].
+    rewrite Hc. cbn [jbind].
+    apply (xlayout_good s ex minus lz num o1 e_val dec_point dp cnt); try assumption; rewrite Hd; assumption.
+Qed.
+
+Lemma xmid_good s ex minus (lz : bool) o1 e_val :
+  Ln s < 4294967296 -> minus = 0 \/ minus = 1 ->
+  forall num, num = (if lz then minus + 1 else minus) ->
+  num < ex -> ex <= 65535 -> ex <= Ln s ->
+  num <= o1 <= ex ->
+  (forall k, num <= k < ex -> k <> o1 -> is_digit (bat s k) = true) ->
+  (o1 = ex \/ (o1 < ex /\ bat s o1 = 46%N)) ->
+  (if lz then o1 = num else num < o1 /\ bat s num <> 48%N) ->
+  (exists k, num <= k < ex /\ k <> o1 /\ bat s k <> 48%N) ->
+  e_val <> 0 -> -65535 <= e_val <= 65535 ->
+  forall G, G = sub s num o1 ++ sub s (o1 + 1) ex ->
+  xgood (den minus (dval G 0) (o1 - num + e_val - Ln G)) (xmid s ex minus lz e_val).
+Proof.
+  intros HL Hm num Hnum Hlt Hex HexL Ho1 Hdig Hpt Hlz Hnz He0 Her G HG. unfold xmid. cbv zeta.
+  rewrite <- Hnum.
+  assert (Hnum0 : 0 <= num) by (destruct lz; lia).
+  rewrite (u16_id (ex - num)) by lia.
+  assert (Hno46 : forall k, num <= k < ex -> k <> o1 -> bat s k <> 46%N).
+  { intros k Hk Hko. specialize (Hdig k Hk Hko). unfold is_digit in Hdig. lia. }
+  destruct (strnchr_spec (Z.to_nat (ex - num)) s num 46%N) as [(q & Hs & Hq & H46 & Hbefore)|(Hs & Hnone)];
+    [lia|lia| |].
+  - rewrite Hs. cbn [jbind].
+    assert (Hqo : q = o1).
+    { destruct (Z.eq_dec q o1) as [He|Hne]; [exact He|]. exfalso. apply (Hno46 q); [lia|exact Hne|exact H46]. }
+    subst q. rewrite (i32_id (o1 - num + e_val)) by lia.
+    apply (xmid_tail s ex minus lz num o1 e_val (Some o1) (o1 - num + e_val)); try assumption; try lia.
+    right. split; [lia|]. split; [exact H46|reflexivity].
+  - rewrite Hs. cbn [jbind]. rewrite (i32_id (ex - num + e_val)) by lia.
+    assert (Hoe : o1 = ex).
+    { destruct Hpt as [He|(Hl & H46)]; [exact He|]. exfalso. apply (Hnone o1); [lia|exact H46]. }
+    subst o1.
+    apply (xmid_tail s ex minus lz num ex e_val None (ex - num + e_val)); try assumption; try lia.
+    left. split; reflexivity.
+Qed.
+
+(* the exponent as lyjson_exp_number() reads it with strtoll() *)
+Definition exp_val (s : bytes) (ex off : Z) : Z :=
+  if (bat s (ex + 1) =? 45)%N then - dval (sub s (exp_start s ex) off) 0
+  else dval (sub s (exp_start s ex) off) 0.
+
+(* lyjson_exp_number() as called by lyjson_number(): after a successful scan, mantissa and exponent both
+   not zero. The text produced denotes  +- (integer digits ++ fraction digits) x 10^(exponent - fraction length) *)
+Lemma exp_number_good s ex off minus o1 :
+  Ln s < 4294967296 ->
+  minus = (if (bat s 0 =? 45)%N then 1 else 0) -> minus < o1 -> o1 <= ex -> ex < Ln s -> 2 < off ->
+  (forall k, minus <= k < o1 -> is_digit (bat s k) = true) ->
+  (bat s minus = 48%N -> o1 = minus + 1) ->
+  ((ex = o1 /\ bat s o1 <> 46%N) \/
+   (bat s o1 = 46%N /\ o1 + 1 < ex /\ forall k, o1 < k < ex -> is_digit (bat s k) = true)) ->
+  bat s ex = 101%N \/ bat s ex = 69%N ->
+  (exists k, minus <= k < ex /\ bat s k <> 48%N /\
+             (bat s minus = 48%N -> bat s (minus + 1) = 46%N -> minus + 2 <= k)) ->
+  exp_start s ex < off -> off <= Ln s ->
+  (forall k, exp_start s ex <= k < off -> is_digit (bat s k) = true) ->
+  is_digit (bat s off) = false ->
+  (exists k, exp_start s ex <= k < off /\ bat s k <> 48%N) ->
+  xgood (den minus (dval (sub s minus o1 ++ sub s (o1 + 1) ex) 0) (exp_val s ex off - Ln (sub s (o1 + 1) ex)))
+        (exp_number s ex off).
+Proof.
+  intros HL Hm Hlt Ho1 HexL Hoff Hint H48o Hfrac Hce (kz & Hkz & Hkz48 & Hkz2) Hes HoffL Hed Hend (k & Hk & Hk48).
+  assert (Hm01 : minus = 0 \/ minus = 1) by (destruct (bat s 0 =? 45)%N; lia).
+  assert (H48 : bat s minus = 48%N -> bat s (minus + 1) = 46%N).
+  { intro Hz. specialize (H48o Hz). destruct Hfrac as [(Heq & Hn46)|(H46 & _)].
+    - exfalso. apply Hkz48. replace kz with minus by lia. exact Hz.
+    - rewrite <- H48o. exact H46. }
+  rewrite exp_number_eq. replace (negb (2 <? off)) with false by lia.
+  rewrite rdin_ok by lia. cbn [jbind].
+  replace (negb ((0 <? ex) && ((bat s ex =? 101)%N || (bat s ex =? 69)%N))) with false by lia.
+  unfold UINT16_MAX. destruct (65535 <? ex) eqn:Hlong; [cbn [xgood]; discriminate|].
+  unfold strtoll. rewrite rdin_ok by lia. cbn [jbind]. fold (exp_start s ex).
+  assert (Hes' : (if (bat s (ex + 1) =? 45)%N || (bat s (ex + 1) =? 43)%N then ex + 1 + 1 else ex + 1) = exp_start s ex).
+  { unfold exp_start. destruct (bat s (ex + 1) =? 45)%N, (bat s (ex + 1) =? 43)%N; cbn [orb]; lia. }
+  rewrite Hes'.
+  assert (Hes0 : ex + 1 <= exp_start s ex) by (unfold exp_start; destruct ((bat s (ex + 1) =? 43)%N || (bat s (ex + 1) =? 45)%N); lia).
+  destruct (acc_digits_spec (S (length s)) s (exp_start s ex) 0) as (a & Ha & Hage & Hapos); [lia|lia|lia|].
+  assert (Hap : 0 < a).
+  { apply (Hapos k); [lia| |exact Hk48]. intros j Hj. apply Hed. lia. }
+  rewrite (acc_digits_dval (S (length s)) s (exp_start s ex) 0 off) in Ha by (try lia; assumption).
+  injection Ha as Ha. rewrite (acc_digits_dval (S (length s)) s (exp_start s ex) 0 off) by (try lia; assumption).
+  cbn [jbind]. unfold exp_val. rewrite Ha. clear Ha.
+  unfold LLONG_MAX, LLONG_MIN.
+  remember (if (bat s (ex + 1) =? 45)%N then - a else a) as v eqn:Hv.
+  assert (Hv0 : v <> 0) by (destruct (bat s (ex + 1) =? 45)%N; lia).
+  destruct (9223372036854775807 <? v) eqn:Hmax; [cbn [jbind orb xgood]; discriminate|].
+  destruct (v <? -9223372036854775808) eqn:Hmin; [cbn [jbind orb xgood]; discriminate|].
+  cbn [jbind orb].
+  match goal with |- xgood _ (if ?c then _ else _) => destruct c eqn:Hrange end; [cbn [xgood]; discriminate|].
+  rewrite rdin_ok by lia. cbn [jbind]. rewrite <- Hm.
+  assert (Hml : minus <= Ln s) by lia.
+  rewrite rdin_ok by lia. cbn [jbind].
+  assert (HFl : Ln (sub s (o1 + 1) ex) = Z.max 0 (ex - (o1 + 1))).
+  { destruct (Z_le_gt_dec ex (o1 + 1)) as [Hle|Hgt]; [rewrite sub_nil by lia; cbn [length]; lia|].
+    rewrite sub_length by lia. lia. }
+  destruct (bat s minus =? 48)%N eqn:Hz.
+  - rewrite rdin_ok by lia. cbn [jbind].
+    replace (bat s (minus + 1) =? 46)%N with true by lia. cbn [jbind].
+    assert (Ho : o1 = minus + 1) by (apply H48o; lia).
+    assert (H46 : bat s o1 = 46%N) by (rewrite Ho; apply H48; lia).
+    destruct Hfrac as [(Heq & Hn46)|(_ & Hfl & Hfd)]; [contradiction|].
+    rewrite Ho. rewrite (sub_one s minus) by lia.
+    replace (bat s minus) with 48%N by lia.
+    change ([48%N] ++ sub s (minus + 1 + 1) ex) with (repeat 48%N 1 ++ sub s (minus + 1 + 1) ex).
+    rewrite dval_zeros_l.
+    pose proof (xmid_good s ex minus true (minus + 1) v HL Hm01 (minus + 1) eq_refl) as Hx.
+    rewrite (sub_nil s (minus + 1) (minus + 1)) in Hx by lia. cbn [app] in Hx.
+    replace (v - Ln (sub s (minus + 1 + 1) ex))
+      with (minus + 1 - (minus + 1) + v - Ln (sub s (minus + 1 + 1) ex)) by lia.
+    apply Hx; try lia.
+    + intros j Hj Hjo. apply Hfd. lia.
+    + exists kz. split; [|split; [|exact Hkz48]]; specialize (Hkz2 ltac:(lia) ltac:(rewrite <- Ho; exact H46)); lia.
+    + reflexivity.
+  - cbn [jbind].
+    pose proof (xmid_good s ex minus false o1 v HL Hm01 minus eq_refl) as Hx.
+    replace (v - Ln (sub s (o1 + 1) ex))
+      with (o1 - minus + v - Ln (sub s minus o1 ++ sub s (o1 + 1) ex))
+      by (rewrite app_length, Nat2Z.inj_add, sub_length by lia; lia).
+    apply Hx; try lia.
+    + intros j Hj Hjo. destruct (Z_lt_ge_dec j o1) as [Hl|Hg]; [apply Hint; lia|].
+      destruct Hfrac as [(Heq & _)|(_ & _ & Hfd)]; [lia|apply Hfd; lia].
+    + exists minus. split; [lia|]. split; lia.
+    + reflexivity.
+Qed.
+
